@@ -11,7 +11,9 @@
 //! prog = {"main": [op ..], "end": "ok"|"err"|"err_io"|"err_cancelled"|"err_joinpanic"|"panic"|"never",
 //!         (err: a string error; err_io: an io::Error; err_cancelled: the JoinError of a worker task
 //!          the software aborted; err_joinpanic: the JoinError of a worker that panicked)
-//!         "tasks": [{"ops": [op ..], "end": "ok"|"panic"|"never"} ..], "ticker": bool}
+//!         "tasks": [{"ops": [op ..], "end": "ok"|"panic"|"never", "kind": "local"|"spawn"|"spawn_awaited"|"nested"} ..],
+//!         "ticker": bool}    (kind != local: a tokio::spawn task, sleeps only: detached / awaited by a local
+//!         task / spawned by a local task)
 //! op   = ["sleep", ns] | ["obs"] | ["timeout", limit_ns, inner_ns] | ["interval", period_ns, n]
 //!
 //! Every `obs` (and every interval tick / timeout result) appends
@@ -130,6 +132,43 @@ async fn software(sh: Rc<Shared>, host: usize, inc: u64, prog: Value, tick: Dura
             let w = Who { task: k as u64 + 1, ..w.clone() };
             let ops = t["ops"].as_array().cloned().unwrap_or_default();
             let end = t["end"].as_str().unwrap_or("ok").to_string();
+            let kind = t["kind"].as_str().unwrap_or("local");
+            if kind != "local" {
+                // tasks on the runtime's own scheduler (tokio::spawn): only sleeps, no guard, no clock reads
+                let sleeps: Vec<u64> = ops.iter().map(|o| o[1].as_u64().unwrap()).collect();
+                let end2 = end.clone();
+                let fut = async move {
+                    for d in sleeps {
+                        tokio::time::sleep(Duration::from_nanos(d)).await;
+                    }
+                    match end2.as_str() {
+                        "panic" => panic!("scripted spawned-task panic"),
+                        "never" => std::future::pending::<()>().await,
+                        _ => {}
+                    }
+                };
+                match kind {
+                    // detached: the JoinHandle is dropped
+                    "spawn" => drop(tokio::spawn(fut)),
+                    // a local task awaits the handle and unwraps the join result
+                    "spawn_awaited" => {
+                        let h = tokio::spawn(fut);
+                        tokio::task::spawn_local(async move {
+                            h.await.unwrap();
+                            std::future::pending::<()>().await;
+                        });
+                    }
+                    // a local task spawns it (detached) when it is first polled
+                    "nested" => {
+                        tokio::task::spawn_local(async move {
+                            drop(tokio::spawn(fut));
+                            std::future::pending::<()>().await;
+                        });
+                    }
+                    x => panic!("unknown task kind {x}"),
+                }
+                continue;
+            }
             tokio::task::spawn_local(async move {
                 let _g = Guard::new(&w.sh, w.host, w.inc, w.task);
                 run_ops(w.clone(), ops).await;
